@@ -7,7 +7,8 @@
    The remaining unwinding code is covered by exhaustive single-fault ENUMERATION (harness/c16_harness.c) — that is
    exploration, not a theorem; its traces are judged by the extracted `trace_ok`, proved sound and complete below. *)
 From Coq Require Import List NArith Bool String.
-From Wbxml Require Import Model.Alloc Model.AllocClasses Gen.AllocSites Proofs.AllocProofs Proofs.AllocInduction.
+From Wbxml Require Import Model.Alloc Model.AllocParserTree Model.AllocClasses Gen.AllocSites Proofs.AllocProofs Proofs.AllocInduction
+  Proofs.AllocParserTreeProofs.
 Import ListNotations.
 Local Open Scope N_scope.
 
@@ -214,6 +215,107 @@ Theorem C16_encoder_output_failure_fixed : forall fails,
   clean h /\ h_live h = [] /\ (st = ERR -> exists k, nth_error fails k = Some true).
 Proof. exact encoder_output_failure_fixed_ok. Qed.
 Print Assumptions C16_encoder_output_failure_fixed.
+
+(* ====================================================================== *)
+(* parser and tree functions (Model/AllocParserTree.v).  exit_ok blocks caller (h, r, st): no violation, the caller's
+   blocks live, an ERROR exit has no result and leaves nothing else, a SUCCESS exit has a result whose blocks are
+   exactly what is left.  Non-memory failures are boolean inputs, so every exit is quantified over. *)
+Theorem C16_parse_string : forall fails inline mb_ok ok, exit_ok buf_blocks [] (parse_string (heap0 fails) inline mb_ok ok).
+Proof. exact parse_string_ok. Qed.
+Print Assumptions C16_parse_string.
+Theorem C16_parse_literal : forall fails mb_ok index_ok, exit_ok buf_blocks [] (parse_literal (heap0 fails) mb_ok index_ok).
+Proof. exact parse_literal_ok. Qed.
+Print Assumptions C16_parse_literal.
+(* parse_stag / parse_tag: the literal name buffer is destroyed on every path, the tag is the only thing left on success *)
+Theorem C16_parse_stag : forall fails literal mb_ok index_ok byte_ok known,
+  exit_ok named_blocks [] (parse_stag (heap0 fails) literal mb_ok index_ok byte_ok known).
+Proof. exact parse_stag_ok. Qed.
+Print Assumptions C16_parse_stag.
+(* parse_attribute: every exit releases attr_name and attr_value or hands them to *attr; bounded in the number of value pieces *)
+Theorem C16_parse_attribute_upto1_partial : forall fails name_ok token_name start_value (pieces : list bool) datetime,
+  (List.length pieces <= 1)%nat ->
+  exit_ok attr_blocks [] (parse_attribute true (heap0 fails) name_ok token_name start_value pieces datetime).
+Proof. exact parse_attribute_ok_upto1. Qed.
+Print Assumptions C16_parse_attribute_upto1_partial.
+Theorem C16_parse_attribute_two_pieces_partial : forall fails p q datetime,
+  exit_ok attr_blocks [] (parse_attribute true (heap0 fails) true true true [p; q] datetime).
+Proof. exact parse_attribute_ok_two_pieces. Qed.
+Print Assumptions C16_parse_attribute_two_pieces_partial.
+(* the statement catches a forgotten release on an error path that needs no allocation failure (the shape of seeded/C01_r22:
+   wbxml_attribute_name_destroy(attr_name) dropped where decode_datetime fails) *)
+Theorem C16_parse_attribute_name_leak_refuted :
+  ~ exit_ok attr_blocks [] (parse_attribute false (heap0 nofail) true true true [] (Some false)) /\
+  leaked (fst (fst (parse_attribute false (heap0 nofail) true true true [] (Some false)))) [] = [1].
+Proof. exact parse_attribute_name_leak_refuted. Qed.
+Print Assumptions C16_parse_attribute_name_leak_refuted.
+(* OPAQUE content with typed decoding (the repair of D3, /repo 08a9d63) and the old code *)
+Theorem C16_content_opaque : forall fails len_ok decode_ok needs_memory,
+  exit_ok buf_blocks [] (content_opaque false (heap0 fails) len_ok decode_ok needs_memory).
+Proof. exact content_opaque_ok. Qed.
+Print Assumptions C16_content_opaque.
+Theorem C16_content_opaque_refuted : leaked (fst (fst (content_opaque true (heap0 nofail) true false false))) [] <> [].
+Proof. exact content_opaque_refuted. Qed.
+Print Assumptions C16_content_opaque_refuted.
+(* the content loop of parse_element: bounded number of content items *)
+Theorem C16_element_contents_upto3_partial : forall fails (items : list bool), (List.length items <= 3)%nat ->
+  let '(h, st) := element_contents (heap_named fails) a_named items in clean h /\ h_live h = [].
+Proof. exact element_contents_ok_upto3. Qed.
+Print Assumptions C16_element_contents_upto3_partial.
+
+(* trees *)
+Theorem C16_tree_add_node_text_merge : forall fails,
+  let '(h, ch, ok) := tree_add_node (heap_texts fails) (Some old_text) new_text true in
+  clean h /\
+  (if ok then leaked h (flat_map tn_blocks ch) = [] /\ all_live h (flat_map tn_blocks ch) = true /\
+              mem 1 (h_live h) = false /\ mem 5 (h_live h) = false /\ mem 6 (h_live h) = false /\ List.length ch = 1%nat
+   else ch = [old_text] /\ all_live h [1; 2; 3; 4; 5; 6] = true /\ leaked h [1; 2; 3; 4; 5; 6] = []).
+Proof. exact tree_add_node_merge_ok. Qed.
+Print Assumptions C16_tree_add_node_text_merge.
+Theorem C16_tree_add_text : forall fails (situation : N),
+  let '(last, is_text, caller) := if situation =? 0 then (None, false, [])
+                                  else if situation =? 1 then (Some old_text, true, [1; 2; 3])
+                                  else (Some (TN 1 None None []), false, [1]) in
+  let '(h, r) := tree_add_text (heap_with fails caller 7) last is_text in
+  clean h /\
+  match r with
+  | None => leaked h caller = [] /\ all_live h caller = true
+  | Some ch => leaked h (flat_map tn_blocks ch) = [] /\ all_live h (flat_map tn_blocks ch) = true
+  end.
+Proof. exact tree_add_text_ok. Qed.
+Print Assumptions C16_tree_add_text.
+(* wbxml_tree_add_tree refused => the caller still owns the tree (the shape of seeded/C18_2) *)
+Theorem C16_tree_add_tree : forall fails can_add,
+  let '(h, r) := tree_add_tree (heap_with fails [1] 2) 1 can_add in
+  clean h /\ all_live h [1] = true /\
+  match r with
+  | None => leaked h [1] = []
+  | Some n => leaked h (tn_blocks n) = [] /\ mem 1 (tn_blocks n) = true
+  end.
+Proof. exact tree_add_tree_ok. Qed.
+Print Assumptions C16_tree_add_tree.
+(* one concrete sub-tree (3 levels, text, embedded tree): extracted and destroyed, the rest of the heap stays *)
+Theorem C16_tree_destroy_all_partial :
+  let h := tree_node_destroy_all (heap_with [] [1; 2; 10; 11; 12; 13; 14; 15; 16; 17; 18; 20] 30) a_subtree in
+  clean h /\ h_live h = [1; 2; 20] /\ h_bad (tree_node_destroy_all h a_subtree) <> [].
+Proof. exact tree_destroy_all_partial. Qed.
+Print Assumptions C16_tree_destroy_all_partial.
+(* the embedded document of wbxml_tree_clb_wbxml_characters (registered known finding P9) *)
+Theorem C16_embedded_characters_heap : forall fails parsable,
+  let '(h, res, ch) := embedded_characters (heap0 fails) parsable in
+  clean h /\ leaked h (emb_children_blocks ch) = [] /\ all_live h (emb_children_blocks ch) = true /\
+  (res = EmbError <-> ch = None).
+Proof. exact embedded_characters_heap_ok. Qed.
+Print Assumptions C16_embedded_characters_heap.
+Theorem C16_embedded_characters_swallow_refuted :
+  exists k, snd (fst (embedded_characters (heap0 (single k)) true)) = EmbText /\
+            snd (fst (embedded_characters (heap0 nofail) true)) = EmbTree.
+Proof. exact embedded_characters_swallow_refuted. Qed.
+Print Assumptions C16_embedded_characters_swallow_refuted.
+Theorem C16_embedded_characters_swallowed_exactly : forall fails,
+  snd (fst (embedded_characters (heap0 fails) true)) = EmbText ->
+  nth_error fails 0 = Some true \/ (nth_error fails 0 = Some false /\ nth_error fails 1 = Some true).
+Proof. exact embedded_characters_swallowed_exactly. Qed.
+Print Assumptions C16_embedded_characters_swallowed_exactly.
 
 (* ---- the trace checker used on the recorded alloc / free / realloc traces ---- *)
 Theorem C16_trace_ok_sound : forall t, trace_ok t = true -> disciplined [] t.
